@@ -84,10 +84,15 @@ V07(e) ==
     IF ~ExactBCD(c) THEN "ok"
     ELSE IF ~IsInt(e.true) THEN "ReturnedDecompositionNotFinite"
     ELSE IF e.cond > CondMax THEN "ok"                     \* ill-conditioned blocks: no obligation
+    \* (from an arbitrary, non-orthonormal user start the FIRST sweep is not an exact block update -- the modes not yet
+    \*  visited are not orthonormal -- so the comparison starts after it)
     ELSE IF /\ PrefixStable(c) /\ prev.ev = "Prefix" /\ prev.k = e.k - 1 /\ IsInt(prev.true) /\ prev.cond <= CondMax
+            /\ (cur.cfg.raw_init => prev.k >= 1)
             /\ e.true > prev.true + MonoTol
          THEN "ObjectiveIncreasedBySweep"
-    ELSE IF e.n_errs >= 0 /\ ~NonIncreasing(e.errs, MonoTol) THEN "ReportedErrorsIncrease"
+    \* a REPORTED value represents the true error only up to ErrTol (the norm shortcut; C06 accepts that much), so the
+    \* reported sequence can be asserted non-increasing only up to the same accuracy; the recomputed errors above keep MonoTol
+    ELSE IF e.n_errs >= 0 /\ ~NonIncreasing(e.errs, ErrTolOf(cur.cfg)) THEN "ReportedErrorsIncrease"
     ELSE "ok"
 
 ----------------------------------------------------------------------------
